@@ -76,6 +76,12 @@ type Logging struct {
 	// must have their keys added to this list so they
 	// can be closed when cleaning up
 	writerKeys []string
+
+	// the default logger that was in place before this
+	// logging config was set up, and the one that replaced
+	// it; kept so that the replacement can be undone if
+	// the config turns out not to be used
+	prevDefault, ownDefault *defaultCustomLog
 }
 
 // openLogs sets up the config and opens all the configured writers.
@@ -169,6 +175,7 @@ func (logging *Logging) setupNewDefault(ctx Context) error {
 	oldDefault := defaultLogger
 	defaultLogger = newDefault
 	defaultLoggerMu.Unlock()
+	logging.prevDefault, logging.ownDefault = oldDefault, newDefault
 
 	// if the new writer is different, indicate it in the logs for convenience
 	var newDefaultLogWriterKey, currentDefaultLogWriterKey string
@@ -189,6 +196,23 @@ func (logging *Logging) setupNewDefault(ctx Context) error {
 	}
 
 	return nil
+}
+
+// restoreDefaultLogger makes the default logger that was in
+// place before this logging config was set up the default
+// logger again. It is for a config that was provisioned but
+// is not going to be used: otherwise everything that logs
+// through Log() would keep writing to the log of a config
+// that is not running.
+func (logging *Logging) restoreDefaultLogger() {
+	if logging == nil || logging.prevDefault == nil {
+		return
+	}
+	defaultLoggerMu.Lock()
+	if defaultLogger == logging.ownDefault {
+		defaultLogger = logging.prevDefault
+	}
+	defaultLoggerMu.Unlock()
 }
 
 // closeLogs cleans up resources allocated during openLogs.
